@@ -1,3 +1,149 @@
 import B6.Driver.Common
-/-! Driver for C04 — stub (the check for this property is not built yet). -/
-def main : IO Unit := B6.Driver.run { σ := Unit, init := (), step := fun s _ _ => (s, .bad) }
+import B6.Model.Cells
+/-!
+Driver for C04 (stateless).
+
+cell   : `<face>/<child positions>`, e.g. `2/` (face cell), `2/0313`;  cell list: comma separated, `-` = empty
+token  : `s:<cell>` (Go `s2:<token>`), `a:<cell>` (Go `a2:<token>`); anything else is kept as an opaque word
+
+ops
+  `pair F=<cells> Q=<cells>`  answer `T=<tokens> R=<tokens>`
+        T = search.TokensForCovering(F), R = tokens of search.RewriteSpatialQuery(Q), both as sorted sets.
+        model: same sets.  predicate: if some f∈F, q∈Q intersect then T ∩ R ≠ ∅   (`prefilter-miss`).
+  `find <kind> Q=<cells> F=<id>:<flags>:<cells>;…`  answer `<ids>` (comma separated, `-` = none)
+        the world holds exactly the listed features; Q is the covering the query compiles to; flags:
+        `m` the query's own Matches is true, `u` not indexed by rule (a point whose only tag is its location),
+        `s` the feature is the one named by an intersects-feature query, one of `p l a r c` = point/path/area/
+        relation/collection, `o` = lives in the overlay layer of an overlay world.  answer = ids returned by FindFeatures in iteration order.
+        model: findFeatures (token pre-filter, then Matches).  predicate: answer = {indexed ids with m}, no
+        duplicates (`miss` / `invent` / `duplicate`).
+        known classes of `miss` (hypothesis of `find_exact` fails, i.e. Matches true but coverings disjoint):
+          `tolerance-outside-covering`  point query vs path feature / polyline query vs point feature (1 mm rule)
+          `self-without-geometry`       intersects-feature naming a feature without geometry, the feature itself
+        and one class where the base layer of an overlay world compiles the query without seeing the named feature:
+          `intersects-feature-across-overlay`  intersects-feature naming a feature of the overlay layer (flag `o`),
+                                        missed feature in the base layer
+-/
+open B6.Driver B6.Model.Cells
+namespace B6.Driver.C04
+
+def parseCell (s : String) : Option Cell :=
+  match s.splitOn "/" with
+  | [f, p] =>
+    match f.toNat? with
+    | some n =>
+      if h : n < 6 then
+        let ds := p.toList.mapM fun ch =>
+          if ch = '0' then some (0 : Fin 4) else if ch = '1' then some 1
+          else if ch = '2' then some 2 else if ch = '3' then some 3 else none
+        ds.map fun d => ⟨⟨n, h⟩, d⟩
+      else none
+    | none => none
+  | _ => none
+
+def parseCells (s : String) : Option (List Cell) :=
+  if s == "-" then some [] else (s.splitOn ",").mapM parseCell
+
+def renderCell (c : Cell) : String :=
+  toString c.face.val ++ "/" ++ String.ofList (c.path.map fun d => Char.ofNat ('0'.toNat + d.val))
+
+def renderToken : Token → String
+  | .s2 c => "s:" ++ renderCell c
+  | .a2 c => "a:" ++ renderCell c
+
+def parseWords (s : String) : List String :=
+  if s == "-" then [] else s.splitOn ","
+
+def renderWords (xs : List String) : String :=
+  if xs.isEmpty then "-" else ",".intercalate xs
+
+def sortDedup (xs : List String) : List String :=
+  let sorted := xs.mergeSort (fun a b => decide (a ≤ b))
+  sorted.foldr (fun x acc => match acc with
+    | y :: _ => if x == y then acc else x :: acc
+    | [] => [x]) []
+
+def sameSet (a b : List String) : Bool := a.all (b.contains ·) && b.all (a.contains ·)
+
+/-- value of `key=` in a word list -/
+def field (ws : List String) (key : String) : Option String :=
+  (ws.find? (·.startsWith (key ++ "="))).map fun w => sdrop w (key.length + 1)
+
+structure Feat where
+  id : String
+  flags : List Char
+  cov : List Cell
+
+def parseFeat (s : String) : Option Feat :=
+  match s.splitOn ":" with
+  | [id, fl, cs] => (parseCells cs).map fun c => ⟨id, fl.toList, c⟩
+  | _ => none
+
+def parseFeats (s : String) : Option (List Feat) :=
+  if s == "-" then some [] else (s.splitOn ";").mapM parseFeat
+
+def Feat.has (f : Feat) (c : Char) : Bool := f.flags.contains c
+
+/-- the recorded classes of missed features (see the header) -/
+def missClass (kind : String) (q : List Cell) (namedInOverlay : Bool) (f : Feat) : Option String :=
+  if kind.startsWith "feature-" && namedInOverlay && !f.has 'o' then some "intersects-feature-across-overlay"
+  else if coveringsMeet f.cov q then none
+  else if (kind == "point" || kind == "feature-point") && f.has 'l' then some "tolerance-outside-covering"
+  else if (kind == "polyline" || kind == "feature-path") && f.has 'p' then some "tolerance-outside-covering"
+  else if kind == "feature-none" && f.has 's' && q.isEmpty then some "self-without-geometry"
+  else none
+
+def hasDup : List String → Bool
+  | [] => false
+  | x :: xs => xs.contains x || hasDup xs
+
+def step (_ : Unit) (op impl : String) : Unit × Verdict :=
+  let ws := words op
+  match ws with
+  | "pair" :: rest =>
+    match (field rest "F").bind parseCells, (field rest "Q").bind parseCells with
+    | some F, some Q =>
+      let mT := sortDedup ((tokensForCovering F).map renderToken)
+      let mR := sortDedup ((rewriteSpatialQuery Q).map renderToken)
+      let model := "T=" ++ renderWords mT ++ " R=" ++ renderWords mR
+      let iw := words impl
+      match field iw "T", field iw "R" with
+      | some t, some r =>
+        let iT := parseWords t
+        let iR := parseWords r
+        let implShares := iT.any (iR.contains ·)
+        if coveringsMeet F Q && !implShares then ((), .propfail "prefilter-miss")
+        else if sameSet iT mT && sameSet iR mR then ((), .ok)
+        else ((), .diff model)
+      | _, _ => ((), .diff model)
+    | _, _ => ((), .bad)
+  | "find" :: kind :: rest =>
+    match (field rest "Q").bind parseCells, (field rest "F").bind parseFeats with
+    | some Q, some feats =>
+      let indexed := feats.filter fun f => !f.has 'u'
+      let byId : String → Bool := fun id => (indexed.find? (·.id == id)).any (·.has 'm')
+      let modelRes := (findFeatures byId (indexed.map fun f => (f.id, f.cov)) Q).map (·.1)
+      let spec := (indexed.filter (·.has 'm')).map (·.id)
+      let got := parseWords impl
+      let invented := got.filter fun id => !spec.contains id
+      let missed := indexed.filter fun f => f.has 'm' && !got.contains f.id
+      if hasDup got then ((), .propfail "duplicate")
+      else if !invented.isEmpty then ((), .propfail "invent")
+      else if !missed.isEmpty then
+        let namedInOverlay := feats.any fun f => f.has 's' && f.has 'o'
+        let classes := missed.map (missClass kind Q namedInOverlay)
+        match classes with
+        | some c :: _ =>
+          -- every missed feature must be in a recorded class; the first one names the line
+          if classes.all (·.isSome) then ((), .propfail ("miss class=" ++ c)) else ((), .propfail "miss")
+        | _ => ((), .propfail "miss")
+      else if sameSet got modelRes then ((), .ok)
+      else ((), .diff (renderWords modelRes))
+    | _, _ => ((), .bad)
+  | _ => ((), .bad)
+
+def family : Family := { σ := Unit, init := (), step := step }
+
+end B6.Driver.C04
+
+def main : IO Unit := B6.Driver.run B6.Driver.C04.family
